@@ -92,6 +92,8 @@ def shard_defn(arg):
 
 # ------------------------------------------------------------------------------------ C01
 def range_ok(kind, v, cond_holds=True, nan_ok=False):
+    if kind == "SKIP":          # range is checked on the underlying public function, not on this wrapper
+        return True
     if v != v:
         return nan_ok
     if math.isinf(v):
